@@ -127,8 +127,8 @@ class ReopenEngine(Engine):
     name = "reopen"
     level = "exploration"
     tiers = {
-        "quick": {"runs": 1500, "wall": 150},
-        "thorough": {"runs": 50000, "wall": 1800},
+        "quick": {"runs": 10000, "wall": 150},
+        "thorough": {"runs": 600000, "wall": 1800},
     }
     components_real = [
         "rope.base.project.Project/_DataFiles (real close(), real pickle+json files on tmpfs)",
